@@ -152,7 +152,53 @@ def _job(args):
     return out
 
 
+def regex_layer_with_any_layer(ctx: Ctx, n: int):
+    """A layer given by a regex vs the same layer given by naming the modules the regex matches, for the two any-layer aliases
+    (the twelve explicit shapes are covered by the main stream through anchored regexes, and by C11 for module rules).
+    Known finding K3b: when the regex matches a module together with its own sub modules the two differ - the layer form of K3."""
+    import re
+    LA, LR = layers.impl()
+    for _ in range(n):
+        rng = ctx.rng
+        nodes = rules.rand_tree(rng, rng.choice((rules.COLLISION_FREE, rules.ADVERSARIAL)), max_nodes=10)
+        edges = rules.rand_edges(rng, nodes, 10)
+        cand = [x for x in nodes if x != "r"]
+        if len(cand) < 3:
+            continue
+        stem = rng.choice(cand)
+        pat = rng.choice([re.escape(stem), re.escape(stem) + ".*", re.escape(stem) + "$"])
+        matched = [x for x in nodes if re.match(pat, x)]
+        others = [x for x in cand if not any(rules.related(x, m) for m in matched)]
+        if not matched or not others:
+            continue
+        other = rng.choice(others)
+        rel = any(rules.related(a, b) for a in matched for b in matched if a != b)
+        arch = rules.make_arch_direct(nodes, edges)
+
+        def la(by_regex):
+            a = LA().layer("L1")
+            a = a.have_modules_with_names_matching(pat) if by_regex else a.containing_modules(list(matched))
+            return a.layer("L2").containing_modules([other])
+        for meth in ("access_any_layer", "be_accessed_by_any_layer"):
+            outs = []
+            for by_regex in (True, False):
+                try:
+                    r = getattr(LR().based_on(la(by_regex)).layers_that().are_named("L1").should_not(), meth)()
+                    outs.append(rules.run_rule(r, arch))
+                except Exception as e:  # noqa: BLE001
+                    outs.append(("ERR", rules.classify_exception(e)))
+            a, b = outs
+            ctx.evaluations += 2
+            ctx.stat("regex_layer_alias_" + ("related_matches" if rel else "unrelated_matches"))
+            if a[0] != b[0] or (a[0] == "FAIL" and layers.parse_layer_message(a[1]) != layers.parse_layer_message(b[1])):
+                ctx.violation(dict(nodes=nodes, edges=edges, pattern=pat, matched=matched, other_layer=[other], rule="L1 should_not " + meth, regex_layer=[a[0], a[1][:200]], named_layer=[b[0], b[1][:200]]),
+                              f"layer L1 given by regex {pat!r}: 'should not {meth}' {a[0]}; the same layer given by naming its modules {matched}: {b[0]}",
+                              {"kind": "regex_layer_alias", "regex_matches_related_modules": rel})
+        ctx.mark_nontrivial(("rxlayer", pat, tuple(nodes)))
+
+
 def run(ctx: Ctx):
+    regex_layer_with_any_layer(ctx, 150 if ctx.quick else 4000)
     n = 4000 if ctx.quick else 120000
     per = 50
     jobs = [(ctx.rng.randrange(1 << 30), per, "scan" if i % 10 == 9 else "direct") for i in range(n // per)]
